@@ -39,6 +39,10 @@ fn relevant(ci: usize) -> &'static [StatusKind] {
     }
 }
 
+fn is_deadline(ci: usize, s: StatusKind) -> bool {
+    (ci == 0 && s == StatusKind::OfferedDeadlineMissed) || (ci == 1 && s == StatusKind::RequestedDeadlineMissed)
+}
+
 #[derive(Clone, Copy, PartialEq, Eq, Debug)]
 enum Tri {
     F,
@@ -127,6 +131,40 @@ fn dl_changed(writes: &[(i64, i64)], d: i64, lag: i64, reads: &[(i64, i64)], t: 
     }
 }
 
+/// How did a deadline-missed status make its condition true at `t`, given that the status was
+/// enabled during [en_lo, en_hi] (the set_enabled_statuses call) and last read at `reads`?
+/// "event": a miss was certainly detected after the enabling; "enable": a miss was certainly
+/// detected (and not read) before the enabling; otherwise "ambiguous".
+fn dl_via(writes: &[(i64, i64)], d: i64, lag: i64, reads: &[(i64, i64)], t: i64, en_lo: i64, en_hi: i64) -> &'static str {
+    let ws: Vec<&(i64, i64)> = writes.iter().filter(|w| w.0 <= t).collect();
+    let r_ret = reads.iter().filter(|r| r.0 <= t).last().map(|r| r.1).unwrap_or(i64::MIN);
+    let mut via = "ambiguous";
+    for (j, w) in ws.iter().enumerate() {
+        let next_lo = match ws.get(j + 1) {
+            Some(n) => n.0.min(t),
+            None => t,
+        };
+        let mut n = 1i64;
+        loop {
+            let earliest = w.0 + n * d;
+            let latest = w.1 + n * d + lag;
+            if latest > next_lo {
+                break;
+            }
+            if earliest > r_ret {
+                if earliest > en_hi {
+                    return "event";
+                }
+                if latest <= en_lo {
+                    via = "enable";
+                }
+            }
+            n += 1;
+        }
+    }
+    via
+}
+
 struct Model {
     snaps: Vec<Snap>,
     dl: Dl,
@@ -177,9 +215,25 @@ impl Model {
         if let Some(s) = first_t {
             // prefer the recorded cause if it is still a reason
             if let Some(vs) = c.via_status {
-                if c.mask.contains(&vs) && self.changed_at(snap, ci, vs, t) == Tri::T {
+                if c.mask.contains(&vs) && self.changed_at(snap, ci, vs, t) == Tri::T && !is_deadline(ci, vs) {
                     return (Tri::T, Some(vs), c.via);
                 }
+            }
+            if is_deadline(ci, s) {
+                // when was this status enabled? (contiguous suffix of snapshots whose mask has it)
+                let idx = self.snaps.iter().rposition(|x| x.t <= t).unwrap_or(0);
+                let mut first = idx;
+                while first > 0 && self.snaps[first - 1].c[ci].mask.contains(&s) {
+                    first -= 1;
+                }
+                let en_hi = self.snaps[first].t;
+                let en_lo = if first > 0 { self.snaps[first - 1].t } else { i64::MIN };
+                let via = if ci == 0 {
+                    dl_via(&self.dl.w_writes, self.dl.d, self.dl.lag, &self.dl.odm_reads, t, en_lo, en_hi)
+                } else {
+                    dl_via(&self.dl.r_writes, self.dl.d, self.dl.lag, &[], t, en_lo, en_hi)
+                };
+                return (Tri::T, Some(s), via);
             }
             return (Tri::T, Some(s), "event");
         }
@@ -768,6 +822,10 @@ fn evaluate(rep: &mut Report, p: &P, o: &Out, replay: &Json, poll_hash: u64, cas
                         run_start = Some((t, st, via));
                     }
                     let (s0, st0, via0) = run_start.unwrap();
+                    if t - s0 >= H_W && via0 == "ambiguous" {
+                        rep.stat("blocked_waits_not_judged(cause_of_true_condition_ambiguous)", 1);
+                        break;
+                    }
                     if t - s0 >= H_W {
                         let status = st0.map(kind_name).unwrap_or("unknown");
                         fire(
@@ -909,6 +967,10 @@ pub fn run(shard: &Shard) -> Report {
                         .join(" ")
                 );
             }
+            eprintln!("  deadline writes(ms)={:?} reader_rx={:?} odm_reads={:?}",
+                o.model.dl.w_writes.iter().map(|w| ((w.0 - EPOCH_NS) / MS, (w.1 - EPOCH_NS) / MS)).collect::<Vec<_>>(),
+                o.model.dl.r_writes.iter().map(|w| ((w.0 - EPOCH_NS) / MS, (w.1 - EPOCH_NS) / MS)).collect::<Vec<_>>(),
+                o.model.dl.odm_reads.iter().map(|w| ((w.0 - EPOCH_NS) / MS, (w.1 - EPOCH_NS) / MS)).collect::<Vec<_>>());
             for wr in &o.waits {
                 eprintln!("  wait w{} +{}..+{} ms -> {:?}", wr.waiter, (wr.t0 - EPOCH_NS) / MS, (wr.t1 - EPOCH_NS) / MS, wr.returned);
             }
